@@ -41,7 +41,11 @@ package server
 //@   opt autoloops
 //@   requires s != nil && s.nsMgr != nil && nsMetasOK(s.nsMgr) && kvNodesOK(s.nsMgr)
 //@   requires forall k string :: in(k, s.nsMgr.kvNodes) ==> s.nsMgr.kvNodes[k].Node != nil
-//@   mapassert cmdArgMap key == nnName(nsNode) && nsNode == s.nsMgr.kvNodes[nsDesp(ns, int(murmur3sum(realKey)) % s.nsMgr.nsMetas[ns].PartitionNum)] && (cmdName != "plset" ==> len(value) >= 2 && sameSlice(value[len(value)-1], arg) && (in(key, cmdArgMap) ==> len(value) == len(cmdArgMap[key]) + 1 && (forall j int :: 0 <= j && j < len(cmdArgMap[key]) ==> sameSlice(value[j], cmdArgMap[key][j])))) && (cmdName == "plset" ==> len(value) >= 3 && sameSlice(value[len(value)-2], arg) && sameSlice(value[len(value)-1], vals[kindex]) && (in(key, cmdArgMap) ==> len(value) == len(cmdArgMap[key]) + 2 && (forall j int :: 0 <= j && j < len(cmdArgMap[key]) ==> sameSlice(value[j], cmdArgMap[key][j]))))
+//@   mapassert cmdArgMap key == nnName(nsNode) && nsNode == s.nsMgr.kvNodes[nsDesp(ns, int(murmur3sum(realKey)) % s.nsMgr.nsMetas[ns].PartitionNum)]
+//@   mapassert cmdArgMap cmdName != "plset" ==> len(value) >= 2 && sameSlice(value[len(value)-1], arg) && (in(key, cmdArgMap) ==> len(value) == len(cmdArgMap[key]) + 1)
+//@   mapassert cmdArgMap cmdName != "plset" && in(key, cmdArgMap) ==> (forall j int :: 0 <= j && j < len(cmdArgMap[key]) ==> sameSlice(value[j], cmdArgMap[key][j]))
+//@   mapassert cmdArgMap cmdName == "plset" ==> len(value) >= 3 && sameSlice(value[len(value)-2], arg) && sameSlice(value[len(value)-1], vals[kindex]) && (in(key, cmdArgMap) ==> len(value) == len(cmdArgMap[key]) + 2)
+//@   mapassert cmdArgMap cmdName == "plset" && in(key, cmdArgMap) ==> (forall j int :: 0 <= j && j < len(cmdArgMap[key]) ==> sameSlice(value[j], cmdArgMap[key][j]))
 //@   modifies *
 //@ loop 1
 //@   invariant ghost(mapupd, cmdArgMap) == iter
